@@ -10,10 +10,13 @@ Trace of a history: passes joined by `|`, followed by `|F<snapshot>` (the final 
 
     S<snapshot>;<spec.paused 0|1>;<revisionHistoryLimit | n>;<writes>;<ok|err>;S<snapshot>
 
-snapshot = listed ObjectSets joined by `,`, each `<name>/<status.revision>/<flags>/<controllerOf>/<objects>`
+snapshot = listed ObjectSets joined by `,`, each
+`<name>/<status.revision>/<flags>/<controllerOf>/<inline objects>/<objects in ObjectSlices>`
 with flags = lifecycle `A|P|X`, then `0|1` for: paused-by-parent annotation, Available=True,
-Paused=True, deletionTimestamp set, hash annotation equals status.templateHash; key lists joined by
-`.`, a nil controllerOf is `-`. -/
+Paused=True, deletionTimestamp set, hash annotation equals status.templateHash, some ObjectSlice the
+phases reference does not exist; key lists joined by `.`, a nil controllerOf is `-`.  The sliced
+objects are what the harness reads from the ObjectSlice objects in its store that the ObjectSet's
+`spec.phases[*].slices` name. -/
 namespace Pko.Drv.HistCommon
 open Lean Pko.Model.Archive Pko.Model.ArchiveHist
 
@@ -26,7 +29,9 @@ structure JRev where
   lc : String                   -- "A" | "P" | "X"
   pbp : Bool                    -- paused-by-parent annotation
   co : Option (List Nat)        -- status.controllerOf keys, null = nil slice
-  obj : List Nat                -- keys of spec.phases objects
+  obj : List Nat                -- keys of the objects inline in spec.phases[*].objects
+  sl : Option (List Nat)        -- keys of the objects in the ObjectSlices named by spec.phases[*].slices (absent = none)
+  sm : Option Bool              -- an ObjectSlice named by spec.phases[*].slices does not exist
   hm : Bool                     -- hash annotation matches
   dt : Bool                     -- deletionTimestamp set (terminating, still listed)
   deriving FromJson
@@ -37,7 +42,8 @@ def toLc : String → Lifecycle
 def toRevs (l : List JRev) : List Rev :=
   (List.range l.length).zip l |>.map fun (i, j) =>
     { id := i, rev := j.rev, available := j.av, statusPaused := j.sp, lc := toLc j.lc, pbp := j.pbp,
-      controllerOf := j.co, objects := j.obj, hashMatch := j.hm, terminating := j.dt }
+      controllerOf := j.co, objects := j.obj, hashMatch := j.hm, terminating := j.dt,
+      sliced := j.sl.getD [], sliceMissing := j.sm.getD false }
 
 def writeStr : Write → String
   | .pause i => s!"p{i}" | .ppause i => s!"pp{i}" | .activate i => s!"u{i}"
@@ -65,6 +71,8 @@ structure JOp where
   sp : Option Bool
   co : Option (List Nat)
   obj : Option (List Nat)
+  sl : Option (List Nat)
+  sm : Option Bool
   lc : Option String
   pbp : Option Bool
   b : Option Bool
@@ -82,7 +90,8 @@ structure HistScn where
 def toOp (j : JOp) : Option Op :=
   match j.op with
   | "od" => some .od
-  | "new" => some (.new (j.rev0.getD false) (j.av.getD false) (j.sp.getD false) j.co (j.obj.getD []))
+  | "new" => some (.new (j.rev0.getD false) (j.av.getD false) (j.sp.getD false) j.co (j.obj.getD [])
+                    (j.sl.getD []) (j.sm.getD false))
   | "st" => some (.status (j.i.getD 0) (j.av.getD false) (j.sp.getD false) j.co)
   | "edit" => some (.edit (j.i.getD 0) (j.lc.map toLc) j.pbp)
   | "del" => some (.del (j.i.getD 0))
@@ -106,7 +115,7 @@ def keysStr (l : List Nat) : String := ".".intercalate (l.map toString)
 def revStr (r : Rev) : String :=
   let lc := match r.lc with | .active => "A" | .paused => "P" | .archived => "X"
   let co := match r.controllerOf with | none => "-" | some l => keysStr l
-  s!"{r.id}/{r.rev}/{lc}{b01 r.pbp}{b01 r.available}{b01 r.statusPaused}{b01 r.terminating}{b01 r.hashMatch}/{co}/{keysStr r.objects}"
+  s!"{r.id}/{r.rev}/{lc}{b01 r.pbp}{b01 r.available}{b01 r.statusPaused}{b01 r.terminating}{b01 r.hashMatch}{b01 r.sliceMissing}/{co}/{keysStr r.objects}/{keysStr r.sliced}"
 
 def snapStr (l : List Rev) : String := ",".intercalate (l.map revStr)
 
@@ -129,18 +138,19 @@ def parseKeys (s : String) : Option (List Nat) :=
 
 def parseRev (s : String) : Option Rev :=
   match s.splitOn "/" with
-  | [id, rev, fl, co, obj] => do
+  | [id, rev, fl, co, obj, sl] => do
     let id ← id.toNat?
     let rev ← rev.toInt?
     let f := fl.toList
     match f with
-    | [lc, pbp, av, sp, dt, hm] =>
+    | [lc, pbp, av, sp, dt, hm, sm] =>
       let lc ← (match lc with | 'A' => some Lifecycle.active | 'P' => some .paused | 'X' => some .archived | _ => none)
       let co ← (if co == "-" then some none else (parseKeys co).map some)
       let obj ← parseKeys obj
+      let sl ← parseKeys sl
       some { id := id, rev := rev, available := av == '1', statusPaused := sp == '1', lc := lc,
              pbp := pbp == '1', controllerOf := co, objects := obj, hashMatch := hm == '1',
-             terminating := dt == '1' }
+             terminating := dt == '1', sliced := sl, sliceMissing := sm == '1' }
     | _ => none
   | _ => none
 
